@@ -329,7 +329,10 @@ class Walker:
                 else:
                     cur = self.exec(it, cur)
             self.loop_stack.pop()
-            out = join_all([cur] + frame["breaks"] + ([] if has_default else [st]))
+            # without a default label the "no case matched" path exists, unless the condition is an
+            # enumeration whose enumerators are all covered (as reported by clang)
+            exhaustive = has_default or bool(s.get("all_enum"))
+            out = join_all([cur] + frame["breaks"] + ([] if exhaustive else [st]))
             return out
         if k == "try":
             a = self.exec(s["body"], st)
